@@ -155,7 +155,8 @@ let parse_val () : valuation =
       let subi = try Hashtbl.find elem_sub e with Not_found -> 0 in
       let ev = (if subi < ns then streams.(subi) else streams.(0)).events in
       let rec go q = if q >= Array.length ev then None else if ev.(q) = e then Some (n_of_int (q + 1)) else go (q + 1) in
-      go (int_of_n p)) }
+      go (int_of_n p));
+    v_start = N0 }
 
 let b2c b = if b then '1' else '0'
 
